@@ -213,8 +213,14 @@ impl Universe {
         plain_scripts.push((s, "op_return"));
         plain_scripts.push((vec![], "empty"));
         plain_scripts.push((vec![0x51], "op_true"));
-        // non-standard gibberish
-        plain_scripts.push((rng.bytes(40), "garbage"));
+        // non-standard gibberish (must not happen to be a witness program, which has an address)
+        loop {
+            let g = rng.bytes(40);
+            if address_text(&g, net).is_none() {
+                plain_scripts.push((g, "garbage"));
+                break;
+            }
+        }
         // > 201 bytes ("large" bucket) and 10 kB
         let mut s = vec![0x51];
         s.extend(std::iter::repeat(0x61).take(300));
